@@ -8,4 +8,5 @@ INVARIANT SourceOrder
 INVARIANT StepsBeforeEvent
 INVARIANT AsyncOnlyIfNeeded
 INVARIANT AllStepsDone
+INVARIANT EarlyEventHarmless
 CHECK_DEADLOCK FALSE
